@@ -43,7 +43,7 @@ PROPS = {
         family="eco", edge_q=["market2_e", "credits2_e"], edge=["credits_q", "market_e", "basket_e", "market2_e", "credits2_e"],
         mc=[("credits_q", 120), ("market_q", 300)], mc_t=[("credits_t", 600), ("market_t", 1800)],
         inv=[],
-        step=["C03_Credits", "C03_Coins", "C03_Block", "C03_PaidInAskDenom"],
+        step=["C03_Credits", "C03_Coins", "C03_Block", "C03_PaidInAskDenom", "C03_AskAsRequested"],
         tinv=[],
     ),
     "C05": dict(
@@ -64,7 +64,7 @@ PROPS = {
         family="eco", edge_q=["market2_e", "params_e"], edge=["market_e", "params_e", "market2_e"],
         mc=[("market_q", 300)], mc_t=[("market_t", 1800), ("params_t", 900)],
         inv=[],
-        step=["C07_Orders", "C07_Credits", "C07_Coins", "C07_NoOtherCoins"],
+        step=["C07_Orders", "C07_Credits", "C07_Coins", "C07_NoOtherCoins", "C03_AskAsRequested"],
         tinv=[],
     ),
     "C11": dict(
